@@ -122,6 +122,10 @@ func RandPurposes(r *fw.Rand, typ string) []string {
 	for i := 0; i < n; i++ {
 		out = append(out, allowed[perm[i]])
 	}
+	// a purpose may legitimately be listed twice (the validator only bounds the count)
+	if len(out) >= 1 && len(out) <= 4 && r.Chance(1, 8) {
+		out = append(out, out[r.Intn(len(out))])
+	}
 	return out
 }
 
@@ -162,8 +166,35 @@ func RandService(r *fw.Rand, id string) map[string]interface{} {
 var (
 	KeyIDPool = []string{"key1", "key2", "key-3", "k_4", "K5", "signing", "k", strings.Repeat("Kk-_0", 10)}           // incl. lengths 1 and 50
 	SvcIDPool = []string{"svc1", "svc2", "hub-3", "s_4", "s", strings.Repeat("S9_-s", 10)} // incl. lengths 1 and 50
-	URIPool   = []string{"https://alice.example.com", "did:example:alice", "urn:uuid:6d1d6e4c", "https://a.example/path?q=1", "http://blog.example.org/"}
+	// incl. pairs that differ as strings but normalise to the same URI (scheme case, percent-encoding): set semantics are by string
+	URIPool = []string{"https://alice.example.com", "did:example:alice", "urn:uuid:6d1d6e4c", "https://a.example/path?q=1", "http://blog.example.org/",
+		"HTTPS://alice.example.com", "https://blog.example/caf%C3%A9", "https://blog.example/café"}
 )
+
+// uriClass groups pool URIs that normalise to the same URI: one patch (or one document list) may contain at most one of them,
+// because validation treats them as duplicates; across patches they are different strings.
+var uriClass = map[string]int{"https://alice.example.com": 1, "HTTPS://alice.example.com": 1, "https://blog.example/caf%C3%A9": 2, "https://blog.example/café": 2}
+
+// PickURIs draws up to n distinct, pairwise non-equivalent URIs from the pool.
+func PickURIs(r *fw.Rand, n int) []string {
+	perm := r.Perm(len(URIPool))
+	seen := map[int]bool{}
+	var out []string
+	for _, i := range perm {
+		if len(out) >= n {
+			break
+		}
+		u := URIPool[i]
+		if c := uriClass[u]; c != 0 {
+			if seen[c] {
+				continue
+			}
+			seen[c] = true
+		}
+		out = append(out, u)
+	}
+	return out
+}
 
 func pickDistinct(r *fw.Rand, pool []string, n int) []string {
 	if n > len(pool) {
@@ -266,9 +297,9 @@ func RandSimplePatch(r *fw.Rand) map[string]interface{} {
 	case 5:
 		return PRemoveServices(pickDistinct(r, SvcIDPool, r.Range(1, 2))...)
 	case 6:
-		return PAddAka(pickDistinct(r, URIPool, r.Range(1, 3))...)
+		return PAddAka(PickURIs(r, r.Range(1, 3))...)
 	case 7:
-		return PRemoveAka(pickDistinct(r, URIPool, r.Range(1, 2))...)
+		return PRemoveAka(PickURIs(r, r.Range(1, 2))...)
 	}
 	var keys, svcs []interface{}
 	if r.Chance(4, 5) {
